@@ -184,7 +184,7 @@ func init() {
 			}, "arraylist")...)
 	}}
 	properties["C07"] = propDef{run: func(c *Ctx) *PropertyRun {
-		return pr("other", "Decided: (R11) parent links mirror child links — a sentence of the statement itself: every child-link store in the three trees is paired with the parent-link store on the same path; (R21) the rebalancing machinery is wired on every path: red-black Put/Remove pass insertCase1/deleteCase1, the case chains hand over without dropping out; AVL balance factors are written only by the fix/rotation family, direct link changes report 'height changed', every reported change is answered by putFix/removeFix on the frame's own link and passed up, rotations are stored back; B-tree nodes that gained an entry go to split, nodes that lost one go to rebalance (or are a lending sibling / the collapsing root), borrow and merge move children with entries; (R32) insert/delete shifts and the split partition keep their indices consistent (no entry or child lost or duplicated); (R35) no path overwrites a field with a constant and then reads it back as the value to transfer (the colour hand-over `sibling.color = parent.color; parent.color = black` in the wrong order) — zero sites expected, guarded by a positive control. Not decided: every numeric claim — comparator-call bounds, height bounds, min/max occupancy, equal leaf depth, colour invariants; these quantify over reachable shapes and no sound static argument in reach bounds them."+notBehaviour,
+		return pr("other", "Decided: (R11) parent links mirror child links — a sentence of the statement itself: every child-link store in the three trees is paired with the parent-link store on the same path; (R21) the rebalancing machinery is wired on every path: red-black Put/Remove pass insertCase1/deleteCase1, the case chains hand over without dropping out; AVL balance factors are written only by the fix/rotation family, direct link changes report 'height changed', every reported change is answered by putFix/removeFix on the frame's own link and passed up, rotations are stored back; B-tree nodes that gained an entry go to split, nodes that lost one go to rebalance (or are a lending sibling / the collapsing root), borrow and merge move children with entries; (R32) insert/delete shifts and the split partition keep their indices consistent (no entry or child lost or duplicated); (R35) no path overwrites a field with a constant and then reads it back as the value to transfer (the colour hand-over `sibling.color = parent.color; parent.color = black` in the wrong order) — zero sites expected, guarded by a positive control; (R21 skeletons) the red-black insert/delete fix-ups with every case expanded: each path continues, absorbs or restructures only on the colour knowledge the algorithm prescribes, and Remove recolours the spliced child only at the root; (R42) after every rebalancing rotation of the AVL tree the stored balance factor of each touched node equals the height difference of its subtrees (symbolic-heap replay of putFix/removeFix in both directions, heights derived from the factors the path knows), and a fix-up after a recursive change under Children[i] is told the right side. Not decided: every numeric claim — comparator-call bounds, height bounds, min/max occupancy, equal leaf depth, colour invariants; these quantify over reachable shapes and no sound static argument in reach bounds them."+notBehaviour,
 			c.rule("R21", ruleR21), c.rule("R21b", ruleR21b), c.rule("R42", ruleR42), c.rule("R11", ruleR11), c.rule("R32", ruleR32), c.rule("R35", ruleR35), c.rule("R37", ruleR37), controlFor(c, "R35"))
 	}}
 	properties["C08"] = propDef{run: func(c *Ctx) *PropertyRun {
